@@ -192,12 +192,25 @@ func (d *drv) trace(id int, a common.Args) {
 		}
 		w.EndBlock()
 		b.SetStateChangesCount(b.ClientState)
+		synced := false
+		if b.StateChangesCount > 0 && d.r.Intn(5) == 0 {
+			// this node did not execute the block: it receives the block's published state changes
+			// (real NewBlockStateChange -> codec -> ApplyBlockStateChange) and finalizes the SYNCED
+			// copy, whose dead-node list is the one that came with the change set
+			if fb := d.syncedCopy(b); fb != nil {
+				b, synced = fb, true
+				w.Head = fb
+			}
+		}
 		r := round.NewRound(b.Round)
 		c.AddRound(r)
 		c.AddNotarizedBlockToRound(r, b)
 		changes, deletes := b.ClientState.GetChangeCount(), len(b.ClientState.GetDeletes())
 		mode, ferr := "finalizeBlock", ""
-		if d.r.Intn(7) == 0 {
+		if synced {
+			mode = "finalizeBlock-synced"
+		}
+		if !synced && d.r.Intn(7) == 0 {
 			// crash between SaveChanges and the dead-node record: the changes are persisted, the
 			// record never is; the node restarts on this block as its LFB
 			mode = "saved-without-record"
@@ -255,6 +268,29 @@ func (d *drv) trace(id int, a common.Args) {
 		d.pruned = last
 	}
 	d.emitPrune("direct", last, perr)
+}
+
+// syncedCopy returns a copy of the executed block b whose state was obtained from b's published
+// state changes instead of execution (nil if the change set is not accepted).
+func (d *drv) syncedCopy(b *block.Block) *block.Block {
+	bsc, err := block.NewBlockStateChange(b)
+	if err != nil {
+		return nil
+	}
+	recv := block.StateChangeProvider().(*block.StateChange)
+	if err := datastore.FromMsgpack(datastore.ToMsgpack(bsc).Bytes(), recv); err != nil {
+		return nil
+	}
+	fb := block.NewBlock(d.c.GetKey(), b.Round)
+	fb.Hash, fb.MinerID, fb.CreationDate = b.Hash, b.MinerID, b.CreationDate
+	fb.ClientStateHash = append(util.Key{}, b.ClientStateHash...)
+	fb.StateChangesCount = b.StateChangesCount
+	fb.SetRoundRandomSeed(b.GetRoundRandomSeed())
+	fb.SetPreviousBlock(b.PrevBlock)
+	if err := d.c.ApplyBlockStateChange(fb, recv); err != nil || !fb.IsStateComputed() {
+		return nil
+	}
+	return fb
 }
 
 func (d *drv) emitPrune(via string, v int64, perr string) {
